@@ -236,6 +236,10 @@ Lemma lbl_iv : l_iv = str "iv". Proof. vm_compute. reflexivity. Qed.
 Lemma lbl_resumption : l_resumption = str "resumption". Proof. vm_compute. reflexivity. Qed.
 Lemma lbl_cv_server : l_cv_server = str "TLS 1.3, server CertificateVerify". Proof. vm_compute. reflexivity. Qed.
 Lemma lbl_cv_client : l_cv_client = str "TLS 1.3, client CertificateVerify". Proof. vm_compute. reflexivity. Qed.
+(* the all-zero inputs are passed with the hash length (RFC 8446 7.1: "a string of Hash.length bytes set to zeros") *)
+Lemma zlen_ok : forall h, zlen_early_salt h = h /\ zlen_dummy_psk h = h /\ zlen_pskke_ikm h = h /\ zlen_master_ikm h = h.
+Proof. intro h. repeat split; reflexivity. Qed.
+Ltac zlen := repeat (rewrite (proj1 (zlen_ok _)) || rewrite (proj1 (proj2 (zlen_ok _))) || rewrite (proj1 (proj2 (proj2 (zlen_ok _)))) || rewrite (proj2 (proj2 (proj2 (zlen_ok _))))).
 Lemma empty_hash_256 : s_sha256OfEmptyInput = sha256_spec []. Proof. vm_compute. reflexivity. Qed.
 Lemma empty_hash_384 : s_sha384OfEmptyInput = sha384_spec []. Proof. vm_compute. reflexivity. Qed.
 Lemma sizes_ok : t_SSL_HS_MASTER_SIZE = 48 /\ t_TLS_HS_FINISHED_SIZE = 12 /\ t_SHA256_HASH_SIZE = 32 /\ t_SHA384_HASH_SIZE = 48 /\
@@ -431,15 +435,15 @@ Proof.
   assert (Lh : length (e_handshake S) = TlsSpec.hlen h) by apply extract_length.
   assert (Lm : length (e_master S) = TlsSpec.hlen h) by apply extract_length.
   repeat split.
-  - unfold early_secret_model. rewrite hkdf_extract_model_eq, Ez. reflexivity.
+  - unfold early_secret_model. zlen. rewrite hkdf_extract_model_eq, Ez. reflexivity.
   - unfold binder_secret_model. destruct isres; [rewrite lbl_resb|rewrite lbl_extb];
       (rewrite derive_secret_model_empty; [reflexivity|lbl_range|fold h; lia]).
   - unfold early_traffic_model. rewrite lbl_cet. rewrite derive_secret_model_eq; [reflexivity|lbl_range|fold h; lia|exact H1].
-  - unfold hs_secrets_model. rewrite lbl_derived, lbl_chs, lbl_shs.
+  - unfold hs_secrets_model. zlen. rewrite lbl_derived, lbl_chs, lbl_shs.
     rewrite derive_secret_model_empty; [|lbl_range|fold h; lia]. cbn [bind].
     rewrite hkdf_extract_model_eq, Ez. cbn [bind]. fold h.
     rewrite !derive_secret_model_eq; first [reflexivity|lbl_range|exact H2|rewrite extract_length; fold h; lia].
-  - unfold app_secrets_model. rewrite lbl_derived, lbl_cap, lbl_sap.
+  - unfold app_secrets_model. zlen. rewrite lbl_derived, lbl_cap, lbl_sap.
     rewrite derive_secret_model_empty; [|lbl_range|fold h; lia]. cbn [bind].
     rewrite hkdf_extract_model_eq, Ez. cbn [bind]. fold h.
     rewrite !derive_secret_model_eq; first [reflexivity|lbl_range|exact H3|rewrite extract_length; fold h; lia].
@@ -541,7 +545,7 @@ Qed.
    Handshake Secret is finally extracted from is Early(selected PSK), Early(0) when the server declined the offer *)
 Lemma early_secret_model_eq : forall sha3 psk, early_secret_model sha3 psk = Ok (early_secret_of (halg_of sha3) psk).
 Proof.
-  intros. unfold early_secret_model, early_secret_of. rewrite hkdf_extract_model_eq, hash_size_eq. reflexivity.
+  intros. unfold early_secret_model, early_secret_of. zlen. rewrite hkdf_extract_model_eq, hash_size_eq. reflexivity.
 Qed.
 
 Definition side_early_secret_model (is_server : bool) : bool -> option (list N) -> bool -> res es_state :=
